@@ -458,10 +458,30 @@ def stepColl (st : St) (cid : String) (c : Coll) (toks : List String) : St × St
     let (snap, p) := s.snapshot
     if p then ({ st with dead := true }, "panic")
     else ({ st with snaps := (st.snaps.filter (·.1 != sid)) ++ [(sid, snap, s.logger)] }, "ok")
+  | ["snapshot", sid, "with", tid] =>
+    -- the open transaction `tid` commits while the snapshot is in progress, after the chunk states were written:
+    -- it is recorded (the recorder is a commit log file: `.log` delivery) and ends up in the tail of the file
+    match c.txn tid with
+    | none => (st, "bad-op")
+    | some t =>
+      let (snap, p) := s.snapshot
+      if p then ({ st with dead := true }, "panic") else
+      let before := s.emitted.length
+      let s1 := (({ s with recording := true, recorded := [] } : Store)).commit t
+      let tail := s1.recorded.reverse
+      let s2 : Store := { s1 with recording := false, recorded := [] }
+      let newE := (s2.emitted.take (s2.emitted.length - before)).reverse
+      let c' := { (c.dropTxn tid) with store := s2 }
+      let (c', tr) := trigDelta c'
+      let snapT : Snap := { snap with tail := tail }
+      let st' : St := { st with snaps := (st.snaps.filter (fun x => x.1 != sid)) ++ [(sid, snapT, s.logger)] }
+      let out := s!"ok committed emitted={newE.length} chunks={String.intercalate "," (newE.map (fun e => toString e.chunk))}" ++ tr
+      if c'.store.panicked then ({ (st'.setColl cid c') with dead := true }, "panic") else (st'.setColl cid c', out)
   | ["restore", sid] =>
     match st.snaps.find? (·.1 == sid) with
-    | some (_, snap, k) =>
-      let s' := s.restore snap k
+    | some (_, snap, _) =>
+      -- logged commits of the file are always in the commit-log-file form
+      let s' := s.restore snap .log
       let c' := { c with store := s' }
       let (c', tr) := trigDelta c'
       fin c' ("ok" ++ tr)
